@@ -111,7 +111,7 @@ func rewritePkg(files []string, out, prefix string, withFields bool, replace map
 		if strings.HasSuffix(f, "_test.go") {
 			continue
 		}
-		af, err := parser.ParseFile(fset, f, nil, parser.SkipObjectResolution)
+		af, err := parser.ParseFile(fset, f, nil, 0)
 		if err != nil {
 			fatalf("cannot parse %s: %v", f, err)
 		}
@@ -236,9 +236,95 @@ func isMakeChan(e ast.Expr) bool {
 	return ok
 }
 
+// declIsChan looks at the declaration the parser resolved the identifier to (a
+// local variable or parameter that shadows a channel of the same name is not a
+// channel): known is false when the declaration does not tell.
+func (r *rewriter) declIsChan(id *ast.Ident, depth int) (known, isChan bool) {
+	if id.Obj == nil || depth > 4 {
+		return false, false
+	}
+	typeIsChan := func(t ast.Expr) (bool, bool) {
+		if t == nil {
+			return false, false
+		}
+		if _, ok := t.(*ast.ChanType); ok {
+			return true, true
+		}
+		if chanElem(t) != nil {
+			return true, true
+		}
+		switch t.(type) {
+		case *ast.ArrayType, *ast.MapType, *ast.StructType, *ast.FuncType, *ast.InterfaceType:
+			return true, false
+		case *ast.StarExpr:
+			return true, false
+		case *ast.Ident:
+			switch t.(*ast.Ident).Name {
+			case "string", "int", "int64", "uint64", "bool", "byte", "error":
+				return true, false
+			}
+		}
+		return false, false
+	}
+	valueIsChan := func(v ast.Expr) (bool, bool) {
+		switch y := v.(type) {
+		case *ast.Ident:
+			return r.declIsChan(y, depth+1)
+		case *ast.CompositeLit, *ast.BasicLit, *ast.FuncLit, *ast.SliceExpr, *ast.BinaryExpr:
+			return true, false
+		case *ast.CallExpr:
+			if isMakeChan(y) || isDoneCall(y) {
+				return true, true
+			}
+			if se, ok := y.Fun.(*ast.SelectorExpr); ok {
+				if pk, ok := se.X.(*ast.Ident); ok && pk.Name == vrtName && (se.Sel.Name == "DoneChan") {
+					return true, true
+				}
+			}
+			if ix, ok := y.Fun.(*ast.IndexExpr); ok {
+				if se, ok := ix.X.(*ast.SelectorExpr); ok && se.Sel.Name == "NewChan" {
+					return true, true
+				}
+			}
+			if fn, ok := y.Fun.(*ast.Ident); ok {
+				switch fn.Name {
+				case "make", "append", "new", "len", "cap", "string", "copy":
+					return true, false
+				}
+			}
+		}
+		return false, false
+	}
+	switch d := id.Obj.Decl.(type) {
+	case *ast.Field:
+		return typeIsChan(d.Type)
+	case *ast.ValueSpec:
+		if k, c := typeIsChan(d.Type); k {
+			return k, c
+		}
+		for i, nm := range d.Names {
+			if nm.Name == id.Name && i < len(d.Values) {
+				return valueIsChan(d.Values[i])
+			}
+		}
+	case *ast.AssignStmt:
+		if len(d.Lhs) == len(d.Rhs) {
+			for i, l := range d.Lhs {
+				if li, ok := l.(*ast.Ident); ok && li.Name == id.Name {
+					return valueIsChan(d.Rhs[i])
+				}
+			}
+		}
+	}
+	return false, false
+}
+
 func (r *rewriter) isChanExpr(e ast.Expr) bool {
 	switch x := e.(type) {
 	case *ast.Ident:
+		if known, c := r.declIsChan(x, 0); known {
+			return c
+		}
 		return r.chanNames[x.Name]
 	case *ast.SelectorExpr:
 		return r.chanNames[x.Sel.Name]
